@@ -30,7 +30,8 @@ LEVEL_TEXT = ("Exploration: thousands of configurations with radii and heights l
               "tangent / nested / concentric / just-inside / just-outside sphere pairs in both "
               "operand orders, frusta given in either end order, pure cones, union called from "
               "either operand, random and coordinate-axis orientations, positions up to 300 radii "
-              "from the origin. Held = held on those executions.")
+              "from the origin. Held = held on those executions."
+              " Directions a fraction of a degree off an axis or diagonal; sizes given as Python ints up to 4e7 (cube beyond 2^63); micro-scale and very large solids (1e-4 .. 1e7).")
 LEVEL_NOTE = ("Trusts scipy.integrate.quad (epsrel 1e-12, break points supplied). Tolerance: "
               "1e-7 of the smaller solid's volume + 1e-12 of the larger; inside the library's own "
               "eps = 1e-6 fast-path band (0 < r_near - r_far <= 1e-6) an allowance of "
@@ -49,7 +50,8 @@ REQUIRED = ["sphere_checked", "cap_checked", "frustum_checked", "ss_intersection
             "sf_intersections", "sf_unions", "ss_tangent", "ss_nested", "ss_concentric",
             "ss_smaller_first", "sf_far_end_order", "sf_taper_narrowing", "sf_taper_widening",
             "sf_frustum_inside_sphere", "sf_h_below_r", "sf_h_above_r", "sf_axis_aligned",
-            "sf_union_from_frustum", "integer_centres"]
+            "sf_union_from_frustum", "integer_centres", "integer_sizes",
+            "integer_sizes_cube_beyond_int64", "direction_near_axis", "micro_or_huge_sizes"]
 FLOOR = {"quick": 3000, "thorough": 80000}
 SHARDS = {"quick": 8, "thorough": 16}
 
@@ -99,6 +101,15 @@ def execute(ctx, case):
     from swcgeom.utils import VolFrustumCone, VolSphere
 
     k = case["kind"]
+    if case.get("int_sizes"):
+        case = dict(case, **{q: int(case[q]) for q in ("r1", "r2", "h", "d") if q in case})
+        ctx.count("integer_sizes")
+        if case["r1"] >= 2097152:
+            ctx.count("integer_sizes_cube_beyond_int64")
+    if case.get("near_axis"):
+        ctx.count("direction_near_axis")
+    if case.get("wide"):
+        ctx.count("micro_or_huge_sizes")
     c = np.array(case["c"], dtype=np.float64)
     if case.get("int_centre"):
         # centres given as integers (tuple of ints / integer array), as voxel-grid callers do
@@ -216,14 +227,33 @@ def draw(rng):
     r1 = float(10 ** rng.uniform(-1.5, 1.5))
     if rng.random() < 0.3:
         r1 = float(rng.choice([0.5, 1.0, 2.0, 3.0, 4.0]))
+    wide = rng.random() < 0.2
+    if wide:  # "every size": micro-scale and very large solids
+        r1 = float(10 ** rng.uniform(-4, 7))
     c = (rng.normal(size=3) * r1 * 10 ** rng.uniform(-1, 2)).tolist()
     if rng.random() < 0.15:
         c = [0.0, 0.0, 0.0]
     axis_aligned = bool(rng.random() < 0.3)
     dirv = AXES[int(rng.integers(0, len(AXES)))] if axis_aligned else rng.normal(size=3).tolist()
-    base = {"r1": r1, "c": c, "u": dirv, "axis_aligned": axis_aligned}
+    near_axis = False
+    if not axis_aligned and rng.random() < 0.2:
+        # a direction a fraction of a degree off a coordinate axis (or off a diagonal)
+        a = np.array(AXES[int(rng.integers(0, len(AXES)))], dtype=np.float64)
+        a /= np.linalg.norm(a)
+        t = rng.normal(size=3)
+        t -= a * (t @ a)
+        t /= np.linalg.norm(t)
+        dirv = (a + np.tan(10 ** rng.uniform(-6, -2)) * t).tolist()
+        near_axis = True
+    base = {"r1": r1, "c": c, "u": dirv, "axis_aligned": axis_aligned, "near_axis": near_axis,
+            "wide": bool(wide)}
     if rng.random() < 0.2:
         base["int_centre"] = str(rng.choice(["tuple", "array"]))
+    if rng.random() < 0.12:
+        # sizes given as Python ints (what `VolSphere(c, 3)` passes), small and very large
+        base["int_sizes"] = True
+        base["r1"] = r1 = float(rng.choice([1, 2, 3, 7, 40, 1290, 1291, 46341, 2097151, 2097152,
+                                            3000000, 40000000]))
     if u < 0.04:
         return dict(base, kind="sphere")
     if u < 0.10:
@@ -271,6 +301,21 @@ def draw(rng):
                 union_from=str(rng.choice(["sphere", "frustum"])))
 
 
+def draw_case(rng):
+    case = draw(rng)
+    if case.get("int_sizes"):
+        r1 = case["r1"]
+        for k in ("r2", "h", "d"):
+            if k in case:
+                v = float(np.round(case[k]))
+                if k == "h" or (k == "r2" and case["kind"] != "frustum" and case["kind"] != "sf"):
+                    v = max(v, 1.0)
+                case[k] = v
+        if case["kind"] == "cap":
+            case["h"] = float(min(case["h"], 2 * r1))
+    return case
+
+
 def run(ctx):
     from swcgeom.utils import volumetric_object as vo
 
@@ -279,7 +324,7 @@ def run(ctx):
     tap = probes.CallTap(targets)
     with tap:
         for _ in range(ctx.scale(5000, 130000)):
-            case = draw(rng)
+            case = draw_case(rng)
             ctx.case(case, nontrivial=not (case["kind"] == "ss" and case["rel"] == "disjoint"),
                      klass=case["kind"] + ("/" + case["rel"] if case["kind"] == "ss" else ""))
             execute(ctx, case)
